@@ -6,9 +6,9 @@
    which values it processes as objects, in which order, which ids it looks up directly, where it
    raises), all JSON documents and all amounts of fuel; [spec_of schema fuel data = Some ps] only
    names the sequence [ps] of values that main hands to process_object, as read under the schema
-   (ps is a function of the inputs).  The loader is [load schema true]: the code with the
-   duplicate test repeated at registration time.  [load schema false] is the code as it stands;
-   what holds and what fails for it is stated at the end.  The concrete table for torchtree's
+   (ps is a function of the inputs).  The loader is [load schema true]: the code as it stands since fix
+   106ad2b (duplicate test repeated at registration time).  [load schema false] is the loader
+   before that fix; what holds and what fails for it is stated at the end.  The concrete table for torchtree's
    classes ([schema_of class_aliases], class_aliases regenerated from the source on every run) is
    validated against the implementation by the correspondence in harness/props/c13.py. *)
 From Coq Require Import List String ZArith.
@@ -49,7 +49,7 @@ Print Assumptions C13_update_seen_by_every_holder.
    names an id whose definition has not been completed earlier in processing order — never
    defined, defined later, or still under construction — or a step raises, the load fails; and
    when the steps themselves only raise parse errors / KeyErrors, it fails with a PARSE error.
-   Holds for the code as it stands too (recheck arbitrary). *)
+   Holds for the pre-fix loader too (recheck arbitrary). *)
 Theorem C13_dangling_rejected : forall (schema : schema_t) recheck fuel data ps,
   spec_of schema fuel data = Some ps -> ~ scoped_all [] ps ->
   exists e ch, load schema recheck fuel data = Err e ch /\
@@ -99,8 +99,9 @@ Theorem C13_plates_expand : forall f,
 Proof. intros. split; [apply expand_plate_free_l | apply expand_single_plate_l]. Qed.
 Print Assumptions C13_plates_expand.
 
-(* The code as it stands (duplicate test before construction only).  It accepts everything the
-   corrected loader accepts, with the same registry ... *)
+(* The loader BEFORE fix 106ad2b/fdeda98 (recheck = false: duplicate test before construction only),
+   kept as documentation of the repaired defect.  It accepts everything the repaired loader
+   (recheck = true, the code as it stands now) accepts, with the same registry ... *)
 Theorem C13_current_code_accepts_more : forall (schema : schema_t) fuel data st,
   load schema true fuel data = Ok tt st -> load schema false fuel data = Ok tt st.
 Proof. exact C13_recheck_l. Qed.
@@ -115,9 +116,9 @@ Proof. exact C13_duplicate_current_l. Qed.
 Print Assumptions C13_duplicate_rejected_partial.
 
 (* ... but NOT otherwise: {"id":"a", TransformedParameter, "x": {"id":"a", Parameter}} is accepted
-   by the current discipline (the inner object is registered under "a", then silently overwritten
-   by the outer one) and rejected by the corrected one.  This is the defect the correspondence
-   reproduces on the real code (finding C13:process_object:duplicate-id-nested-in-own-definition-accepted). *)
+   by the OLD discipline (the inner object is registered under "a", then silently overwritten
+   by the outer one) and rejected by the repaired one.  This is the defect the correspondence
+   reproduced on the real code before the fix (finding C13:process_object:duplicate-id-nested-in-own-definition-accepted). *)
 Definition witness : json :=
   JArr [JObj [("id", JStr "a"); ("type", JStr "TransformedParameter");
               ("transform", JStr "torch.distributions.ExpTransform");
